@@ -13,7 +13,7 @@
 (*   ndim   0..4        number of dimensions of the data argument          *)
 (*   empty  "no" | "samples" | "features"   a zero-length axis             *)
 (*   t      1..5        length of the tuple axis (when there is one)       *)
-(*   drel   "fit" | "less" | "more"   feature count vs the fitted one      *)
+(*   drel   "fit" | "less" | "more" | "one"  feature count vs the fitted one (one = a single feature; fitted >= 2) *)
 (*   dtype  "float" | "int" | "str" | "none"  (strings / None entries)     *)
 (*   bad    "none" | "nan_first" | "nan_last" | "inf_first" | "inf_last"   *)
 (*          | "neginf_mid"     a non-finite entry and where                *)
@@ -95,7 +95,7 @@ Canonical(k, m, c) ==
 Dom(f) == CASE f = "ndim" -> 0..4
             [] f = "empty" -> {"no", "samples", "features"}
             [] f = "t" -> 1..5
-            [] f = "drel" -> {"fit", "less", "more"}
+            [] f = "drel" -> {"fit", "less", "more", "one"}
             [] f = "dtype" -> {"float", "int", "str", "none"}
             [] f = "bad" -> {"none", "nan_first", "nan_last", "inf_first", "inf_last", "neginf_mid"}
             [] f = "lab" -> {"na", "ok", "zero", "two", "half"}
